@@ -107,6 +107,11 @@ func (w *Walker) Walk(
 	w.allCancel = cancelFunc
 
 	// populate info map
+	// All selected nodes must be registered before the first routine is started:
+	// a node that completes early looks up its dependants in nodeInfoMap, and a
+	// dependant that is not registered yet would never be started (and the map
+	// would be read while it is still being written).
+	var selectedNodes []model.BuildNode
 	for _, node := range w.graph.nodes {
 		if !node.GetIsSelected() {
 			// skip unselected targets
@@ -122,12 +127,17 @@ func (w *Walker) Walk(
 			ready:  readyCh,
 			cancel: cancelCh,
 		}
+		selectedNodes = append(selectedNodes, node)
+	}
 
-		w.wait.Add(1)
-		// start all routines
+	// start all routines
+	w.wait.Add(len(selectedNodes))
+	for _, node := range selectedNodes {
 		go w.nodeRoutine(ctx, node, w.nodeInfoMap[node.GetLabel()])
+	}
 
-		// start all routines with no dependencies immediately
+	// start all routines with no dependencies immediately
+	for _, node := range selectedNodes {
 		if len(w.graph.inEdges[node.GetLabel()]) == 0 {
 			w.startNode(node)
 		}
